@@ -1,12 +1,14 @@
 import CacheVerif.Proofs.ProtoLocks
+import CacheVerif.Proofs.ProtoData
 /-!
 # C16 — reads never wait for writers: lookups finish while a writer or resize stalls
 
-In M4a a lookup (`Load`, `Size`, the lock-free fast path of `LoadOrStore`/`LoadOrCompute`) is two steps of the
-caller (read the table pointer, read the chain / the counter); no guard of these steps depends on any other
-thread, and they write nothing shared.  Hence from *every* state — reachable or not, whatever the other threads
-are doing: inside `valueFn`, between any two of their atomic operations, between table copy and publish — a
-solo run of the reader finishes in 2 of its own steps.  That the real multi-read scan of a chain (M4b) is bounded
+In M4a a lookup (`Load`, the lock-free fast path of `LoadOrStore`/`LoadOrCompute`) is two steps of the
+caller (read the table pointer, read the chain); `Size` is one step (read the table pointer) plus one atomic load
+per counter stripe; no guard of these steps depends on any other thread, and they write nothing shared.  Hence from
+*every* state — reachable or not, whatever the other threads are doing: inside `valueFn`, between any two of their
+atomic operations, between table copy and publish — a solo run of the reader finishes in 2 of its own steps
+(`Size`: 1 + the number of stripes).  That the real multi-read scan of a chain (M4b) is bounded
 by the chain length in a solo run, and the cache-level statement, are in `Props/C16` of M4b/M5 (see DESIGN.md).
 -/
 namespace Props.C16
@@ -45,12 +47,60 @@ theorem C16_solo_load (t : Tid) (g : G K V) (l : L K V) (k : K) (hl : l.pc = .id
     | none => False := by
   simp [soloRun, tstep, hl, startOp, opKey]
 
-/-- **solo run of `Size`**: three steps, returns the counter of the current table -/
-theorem C16_solo_size (t : Tid) (g : G K V) (l : L K V) (hl : l.pc = .idle) :
-    match soloRun p t g l [{ op := some .size }, {}, {}] with
-    | some (g', l') => g' = g ∧ l'.pc = .ret ∧ l'.result = some (.size (g.tables g.cur).size)
+/-- the `sumSize` loop of a solo `Size`: from stripe `si` with `k + 1` stripes left, `k + 1` steps of the caller
+alone reach the return pc with the sum of all the stripes -/
+theorem solo_sumSize (t : Tid) (g : G K V) (k : Nat) (l : L K V) (hpc : l.pc = .szSum)
+    (hk : l.si + k + 1 = p.stripes (g.tables l.tbl).len)
+    (hacc : l.acc = Proofs.ProtoData.psum (g.tables l.tbl).ctr l.si) :
+    ∃ l', soloRun p t g l (List.replicate (k + 1) {}) = some (g, l') ∧ l'.pc = .ret ∧
+      l'.result = some (.size ((g.tables l.tbl).total (p.stripes (g.tables l.tbl).len))) := by
+  induction k generalizing l with
+  | zero =>
+    refine ⟨{ l with pc := .ret, result := some (.size (l.acc + (g.tables l.tbl).ctr l.si)) }, ?_, rfl, ?_⟩
+    · have : ¬ l.si + 1 < p.stripes (g.tables l.tbl).len := by omega
+      simp [soloRun, tstep, hpc, this]
+    · have : p.stripes (g.tables l.tbl).len = l.si + 1 := by omega
+      simp only [Proofs.ProtoData.total_eq, this, Proofs.ProtoData.psum_succ, hacc]
+  | succ k ih =>
+    have hlt : l.si + 1 < p.stripes (g.tables l.tbl).len := by omega
+    obtain ⟨l', h1, h2, h3⟩ := ih { l with si := l.si + 1, acc := l.acc + (g.tables l.tbl).ctr l.si } hpc
+      (by dsimp only; omega) (by dsimp only; rw [Proofs.ProtoData.psum_succ, hacc])
+    refine ⟨l', ?_, h2, h3⟩
+    rw [List.replicate_succ]
+    simp only [soloRun, tstep, hpc, hlt, if_true]
+    simp only [hpc] at h1
+    exact h1
+
+/-- **solo run of `Size`**: start, read the table pointer, one atomic load per stripe (`n` of them); returns the sum
+of the stripes of the current table; nothing shared changes and no step can be blocked -/
+theorem C16_solo_size (t : Tid) (g : G K V) (l : L K V) (hl : l.pc = .idle) (hst : 0 < p.stripes (g.tables g.cur).len) :
+    match soloRun p t g l ({ op := some .size } :: {} :: List.replicate (p.stripes (g.tables g.cur).len) {}) with
+    | some (g', l') => g' = g ∧ l'.pc = .ret ∧
+        l'.result = some (.size ((g.tables g.cur).total (p.stripes (g.tables g.cur).len)))
     | none => False := by
-  simp [soloRun, tstep, hl, startOp]
+  obtain ⟨k, hk⟩ : ∃ k, p.stripes (g.tables g.cur).len = k + 1 := ⟨p.stripes (g.tables g.cur).len - 1, by omega⟩
+  obtain ⟨l', h1, h2, h3⟩ := solo_sumSize p t g k
+    { (startOp l (.size : POp K V)) with pc := .szSum, tbl := g.cur, si := 0, acc := 0 } rfl (by dsimp only; omega) rfl
+  rw [hk]
+  simp only [soloRun, tstep, hl, startOp]
+  simp only [startOp] at h1
+  rw [h1]
+  exact ⟨rfl, h2, by rw [h3, hk]⟩
+
+/-- the same on a concrete instance: 8 stripes, so `Size` takes 2 + 8 steps of the caller alone -/
+def exP : Params Nat :=
+  { growThr := fun n => n * 9 / 4, shrinkThr := fun n => n * 3 / 128, bkt := fun _ k => k, minLen := 2, growOnly := false,
+    stripes := fun _ => 8 }
+
+example (t : Tid) (g : G Nat Nat) (l : L Nat Nat) (hl : l.pc = .idle) :
+    ∃ l', soloRun exP t g l ({ op := some .size } :: List.replicate 9 {}) = some (g, l') ∧ l'.pc = .ret ∧
+      l'.result = some (.size ((g.tables g.cur).total 8)) := by
+  have h := C16_solo_size exP t g l hl (show 0 < 8 by decide)
+  split at h
+  · rename_i g' l' heq
+    obtain ⟨rfl, h2, h3⟩ := h
+    exact ⟨l', heq, h2, h3⟩
+  · exact h.elim
 
 /-- **the hit path of `LoadOrStore`/`LoadOrCompute`** never reaches a lock either: if the key is present the
 call returns after the lock-free read, in three steps of the caller alone, without calling its function -/
